@@ -4,7 +4,7 @@ harness/src/prims.rs, which are one-line wrappers of the real combinators) and t
 
 
 class N:
-    def __init__(self, rs, ast, desc, depth, params=(), flags=(), pmax=None):
+    def __init__(self, rs, ast, desc, depth, params=(), flags=(), pmax=None, sites=0, ids=()):
         self.rs = rs          # chumsky builder expression (Rust)
         self.ast = ast        # refsem::G constant expression (Rust)
         self.desc = desc      # rendering
@@ -12,9 +12,11 @@ class N:
         self.params = set(params)   # indices into t[] used
         self.flags = set(flags)     # feature flags: 'sep', 'sep_lead', 'rec', ...
         self.pmax = dict(pmax or {})  # parameter index -> assumed maximum (count parameters)
+        self.sites = sites            # number of error-emitting sites (validate / recover_with nodes)
+        self.ids = tuple(ids)         # validate ids used
 
 
-def _mk(rs, ast, desc, kids=(), params=(), flags=(), pmax=None):
+def _mk(rs, ast, desc, kids=(), params=(), flags=(), pmax=None, site=0, ident=None):
     d = 1 + max([k.depth for k in kids], default=0)
     p = set(params)
     f = set(flags)
@@ -24,7 +26,9 @@ def _mk(rs, ast, desc, kids=(), params=(), flags=(), pmax=None):
         f |= k.flags
         for i, v in k.pmax.items():
             m[i] = min(v, m.get(i, v))
-    return N(rs, ast, desc, d, p, f, m)
+    sites = site + sum(k.sites for k in kids)
+    ids = tuple(i for k in kids for i in k.ids) + ((ident,) if ident is not None else ())
+    return N(rs, ast, desc, d, p, f, m, sites, ids)
 
 
 # ---- primitives ---------------------------------------------------------------------------------
@@ -156,7 +160,7 @@ def TryMapWith(a, i):
 
 def Bx(a):
     """`.boxed()` — dyn path through go_emit/go_check; same semantics"""
-    return N(f"bx({a.rs})", a.ast, f"box[{a.desc}]", a.depth, a.params, a.flags | {"boxed"}, a.pmax)
+    return N(f"bx({a.rs})", a.ast, f"box[{a.desc}]", a.depth, a.params, a.flags | {"boxed"}, a.pmax, a.sites, a.ids)
 
 
 # ---- repetition ---------------------------------------------------------------------------------
@@ -166,7 +170,7 @@ class Cnt:
 
     @property
     def rs(self):
-        return {"K": f"{self.v}usize", "P": f"t[{self.v}] as usize"}.get(self.kind)
+        return {"K": f"{self.v}usize", "P": f"t[{self.v}] as usize", "Inf": "usize::MAX"}.get(self.kind)
 
     @property
     def ast(self):
@@ -339,23 +343,60 @@ def Foldr(a, b):
 # ---- non-fatal errors / recovery ----------------------------------------------------------------
 def Validate(a, ident):
     return _mk(f"val({a.rs}, {ident})", f"G::Validate(&{a.ast}, {ident})", f"{a.desc}.validate(emit {ident})",
-               [a], flags=["validate"])
+               [a], flags=["validate"], site=1, ident=ident)
 
 
 def RecVia(a, f):
     return _mk(f"rec_via({a.rs}, {f.rs})", f"G::Recover(&{a.ast}, Strat::Via(&{f.ast}))",
-               f"{a.desc}.recover_with(via_parser({f.desc}))", [a, f], flags=["recover"])
+               f"{a.desc}.recover_with(via_parser({f.desc}))", [a, f], flags=["recover"], site=1)
 
 
 def RecSkipUntil(a, skip, until):
     return _mk(f"rec_skip_until({a.rs}, {skip.rs}, {until.rs})",
                f"G::Recover(&{a.ast}, Strat::SkipUntil(&{skip.ast}, &{until.ast}))",
                f"{a.desc}.recover_with(skip_until({skip.desc}, {until.desc}, FB))", [a, skip, until],
-               flags=["recover"])
+               flags=["recover"], site=1)
 
 
 def RecSkipRetry(a, skip, until):
     return _mk(f"rec_skip_retry({a.rs}, {skip.rs}, {until.rs})",
                f"G::Recover(&{a.ast}, Strat::SkipRetry(&{skip.ast}, &{until.ast}))",
                f"{a.desc}.recover_with(skip_then_retry_until({skip.desc}, {until.desc}))", [a, skip, until],
-               flags=["recover"])
+               flags=["recover"], site=1)
+
+
+# ---- value-building formulations (C04 pairs): no refsem counterpart (ast is a dummy) ---------------
+def _nx(rs, desc, kids):
+    return _mk(rs, "G::Empty", desc, kids)
+
+
+def ThenSnd(a, b):
+    return _nx(f"then_snd({a.rs}, {b.rs})", f"({a.desc} then {b.desc}).map(snd)", [a, b])
+
+
+def ThenFst(a, b):
+    return _nx(f"then_fst({a.rs}, {b.rs})", f"({a.desc} then {b.desc}).map(fst)", [a, b])
+
+
+def MapUnit(a):
+    return _nx(f"map_unit({a.rs})", f"{a.desc}.map(|_| ())", [a])
+
+
+def MapTo(a, c):
+    return _nx(f"map_to({a.rs}, {c})", f"{a.desc}.map(|_| {c})", [a])
+
+
+def ToSpan(a):
+    return _nx(f"to_span_({a.rs})", f"{a.desc}.to_span()", [a])
+
+
+def SpOnly(a):
+    return _nx(f"sp_only({a.rs})", f"{a.desc}.map_with(span)", [a])
+
+
+def ToSliceLen(a):
+    return _nx(f"to_slice_len({a.rs})", f"{a.desc}.to_slice().len", [a])
+
+
+def SlLen(a):
+    return _nx(f"sl_len({a.rs})", f"{a.desc}.map_with(span.len)", [a])
